@@ -440,6 +440,13 @@ func (t *AHtree) ResetSize(newSize uint64) error {
 		}
 	}
 
+	// make the rewind durable: the commit log decides the size at the next open, so it is cut now
+	// (the payload and digest logs are cut when the next element is appended)
+	err = t.cLog.SetOffset(cLogSize)
+	if err != nil {
+		return err
+	}
+
 	// Invalidate caches
 	for i := cLogSize; i < t.cLogSize; i += cLogEntrySize {
 		t.pCache.Pop(uint64(i / cLogEntrySize))
